@@ -179,7 +179,8 @@ def _check_progress(X, child, conn, plaintext, kp):
     return seen, closed
 
 
-def h_transparency(X, *, nmax, max_cuts, dense, sends_max, roles=ROLES, tickets=True, fragments=(1, 16384)):
+def h_transparency(X, *, nmax, max_cuts, dense, sends_max, sends_min=0, roles=ROLES, tickets=True, fragments=(1, 16384), coarse=False,
+                   endings=("open", "close_notify", "close_notify+tcp-close", "tcp-close")):
     role = X.choose("role", roles)
     kp = "C14/" + ("client" if role == "client" else "server")
     # ---- what the peer sends after the handshake
@@ -196,12 +197,12 @@ def h_transparency(X, *, nmax, max_cuts, dense, sends_max, roles=ROLES, tickets=
         if tk != "none":
             parts.insert(int(tk.split("-")[1]), S.Peer.ticket())
             X.reach("post-handshake-record")
-    if n and X.boolean("empty_record_first"):
+    if tickets and n and X.boolean("empty_record_first"):
         parts.insert(0, S.record(S.APPDATA, b""))
-    ending = X.choose("ending", ["open", "close_notify", "close_notify+tcp-close", "tcp-close"])
+    ending = X.choose("ending", list(endings))
     if ending.startswith("close_notify"):
         parts.append(S.Peer.close_notify())
-    send_chunks = [bytes([0x61 + i]) * (i + 1) for i in range(X.choose("child_sends", sends_max + 1))]
+    send_chunks = [bytes([0x61 + i]) * (i + 1) for i in range(X.choose("child_sends", list(range(sends_min, sends_max + 1))))]
     max_fragment = X.choose("max_fragment", list(fragments)) if send_chunks else fragments[-1]
 
     ctx, d, tl, child, conn, stub = _setup(role, max_fragment)
@@ -213,18 +214,25 @@ def h_transparency(X, *, nmax, max_cuts, dense, sends_max, roles=ROLES, tickets=
     # ---- TCP segmentation of the peer's bytes (from its last handshake flight on)
     ncuts = X.choose("cuts", max_cuts + 1)
     cuts, lo = [], 1
+    # coarse menu: inside / at the end of the last handshake flight, inside each record header, at each record boundary, before the last byte
+    marks, off = {len(flight) - 1, len(flight), total - 1}, len(flight)
+    for p_ in parts:
+        marks |= {off + 3, off + 5, off + len(p_)}
+        off += len(p_)
     for i in range(ncuts):
         X.assume(lo < total)
-        if dense or i == 0:
-            c = X.choose(f"cut{i}", list(range(lo, total)))
+        if coarse:
+            cand = sorted(p for p in marks if lo <= p < total)
+        elif dense or i == 0:
+            cand = list(range(lo, total))
         else:
-            c = X.choose(f"cut{i}", sorted({p for p in (lo, lo + 1, lo + 4, lo + 5, total - 1) if lo <= p < total}))
+            cand = sorted({p for p in (lo, lo + 1, lo + 4, lo + 5, total - 1) if lo <= p < total})
+        X.assume(bool(cand))
+        c = X.choose(f"cut{i}", cand)
         cuts.append(c)
         lo = c + 1
     edges = [0] + cuts + [total]
     segs = [wire[a:b] for a, b in zip(edges, edges[1:])]
-    if len(flight) in cuts[:1] or not cuts:
-        pass
     if not cuts or cuts[0] > len(flight):
         X.reach("data-in-same-segment-as-last-flight")
     # ---- schedule: inbound segments and child sends interleaved in solver-chosen order
@@ -377,9 +385,11 @@ def obligations(tier):
                     f"(first cut anywhere, second {'from 5 positions after the first' if quick else 'anywhere'})",
              encoded=ENCODED, must_reach=["end", "data", "data-in-same-segment-as-last-flight", "post-handshake-record", "close_notify", "close_notify+tcp-close", "tcp-close"] + ROLES,
              stubs=STUBS, parallel_depth=5),
-        Symx("interleaving", lambda X: h_transparency(X, nmax=2, max_cuts=2 if quick else 3, dense=False, sends_max=2, tickets=not quick),
-             bounds=f"3 roles x plaintext 0..2 bytes in every record split x 4 endings x child sends 0..2 chunks (1 and 2 bytes) at every position between inbound "
-                    f"segments x stub fragment size 1/16384; <= {3 if quick else 4} TCP segments (first cut anywhere, later cuts from 5 positions)",
+        Symx("interleaving", lambda X: h_transparency(X, nmax=2, max_cuts=2 if quick else 3, dense=False, coarse=True, sends_min=1, sends_max=2, tickets=not quick,
+                                                      endings=("open", "close_notify+tcp-close", "tcp-close") if quick else ("open", "close_notify", "close_notify+tcp-close", "tcp-close")),
+             bounds=f"3 roles x plaintext 0..2 bytes in every record split x {3 if quick else 4} endings x child sends 1..2 chunks (1 and 2 bytes) at every position between inbound "
+                    f"segments x stub fragment size 1/16384; <= {3 if quick else 4} TCP segments, cuts from the structural menu (inside / at the end of the last handshake "
+                    "flight, inside each record header, at each record boundary, before the last byte)",
              encoded=ENCODED, must_reach=["end", "child-sent", "send-between-inbound-segments", "data-in-same-segment-as-last-flight"] + ROLES,
              stubs=STUBS, parallel_depth=5),
     ]
